@@ -43,7 +43,7 @@ def within(freq, p, n, k=7.0):
 
 def det_bn(rng):
     """BN whose non-root CPDs are deterministic (one 1 per column), roots generic"""
-    case = gen.rand_bn(rng, nmin=2, nmax=5, maxcard=3, name_kind=rng.choice(["str", "word", "int"]), mincard=2, dup=False,
+    case = gen.rand_bn(rng, nmin=2, nmax=5, maxcard=3, name_kind=rng.choice(["str", "word", "int", "int0"]), mincard=2, dup=False,
                        label_kind=rng.choice(["permint", "shiftint", "str", "int", "permint"]))
     for c in case["cpds"]:
         if c["parents"]:
@@ -86,7 +86,7 @@ def rows_to_idx(df, case, cols):
 # ----------------------------------------------------------------------------- forward sampling
 def gen_forward(rng, tier):
     det = rng.random() < .5
-    case = det_bn(rng) if det else gen.rand_bn(rng, nmin=1, nmax=4, maxcard=3, name_kind=rng.choice(["str", "word", "int"]),
+    case = det_bn(rng) if det else gen.rand_bn(rng, nmin=1, nmax=4, maxcard=3, name_kind=rng.choice(["str", "word", "int", "int0"]),
                                                label_kind=rng.choice(["permint", "str", "int", "shiftint"]), mincard=1)
     n = len(case["nodes"])
     case["det"] = det
@@ -156,7 +156,7 @@ def run_forward(case, drv):
 
 # ----------------------------------------------------------------------------- rejection / likelihood weighting
 def gen_ev(rng, tier):
-    case = gen.rand_bn(rng, nmin=2, nmax=4, maxcard=3, name_kind=rng.choice(["str", "word", "int"]),
+    case = gen.rand_bn(rng, nmin=2, nmax=4, maxcard=3, name_kind=rng.choice(["str", "word", "int", "int0"]),
                        label_kind=rng.choice(["permint", "str", "int", "shiftint"]), mincard=2)
     n = len(case["nodes"])
     ev = rng.sample(range(n), rng.randint(1, min(2, n - 1)))
@@ -184,6 +184,14 @@ def run_ev(case, drv):
     tags = dict(kind=case["kind"], size=case["size"])
     try:
         s = BayesianModelSampling(bn)
+        if case["seed"] % 3 == 0:
+            # the sampler object has been used before, with other evidence states / another method: nothing may carry over
+            try:
+                other = [State(pn[v], gen.lab(labels[v][(i + 1) % card[v]])) for v, i in case["ev"]]
+                s.likelihood_weighted_sample(evidence=other, size=3, seed=1, show_progress=False)
+                s.forward_sample(size=2, seed=2, show_progress=False)
+            except Exception:
+                pass
         if case["kind"] == "rejection":
             df = s.rejection_sample(evidence=evidence, size=case["size"], seed=case["seed"], show_progress=False)
         else:
@@ -242,7 +250,7 @@ def run_ev(case, drv):
 # ----------------------------------------------------------------------------- Gibbs kernels
 def gen_gibbs(rng, tier):
     if rng.random() < .6:
-        case = gen.rand_bn(rng, nmin=2, nmax=4, maxcard=3, name_kind=rng.choice(["str", "word", "int"]),
+        case = gen.rand_bn(rng, nmin=2, nmax=4, maxcard=3, name_kind=rng.choice(["str", "word", "int", "int0"]),
                            label_kind=rng.choice(["permint", "str", "int", "shiftint"]), mincard=2, positive=True)
         case["kind"] = "bn"
     else:
